@@ -70,6 +70,12 @@ func graphCands(root *Case, at func(c *Case) *Graph) []*Case {
 					add(func(g *Graph) bool { e := g.Stages[si][ni].Err; e.Wraps, e.Typed, e.TCode, e.Nested = 0, false, 0, false; return true })
 				}
 			}
+			if n.InKey != "" {
+				add(func(g *Graph) bool { g.Stages[si][ni].InKey = ""; return true })
+			}
+			if n.OutKey {
+				add(func(g *Graph) bool { g.Stages[si][ni].OutKey = false; return true }) // (normKeys then frees the nodes that took it)
+			}
 			if len(st) > 1 {
 				add(func(g *Graph) bool {
 					s := g.Stages[si]
@@ -139,6 +145,31 @@ func caseCands(c *Case) []*Case {
 	return append(out, graphCands(c, func(c *Case) *Graph { return c.G })...)
 }
 
+// normKeys: a simplification may have removed or replaced the keyed predecessor of a node that takes its
+// input by key; such a node goes back to taking its whole input (a dangling input key would be a failure of
+// the harness's own graph, not of the run).
+func normKeys(g *Graph) {
+	for s, st := range g.Stages {
+		for _, n := range st {
+			if n.Sub != nil {
+				normKeys(n.Sub)
+			}
+			if n.InKey == "" {
+				continue
+			}
+			ok := false
+			if s >= 1 {
+				for _, p := range g.Stages[s-1] {
+					ok = ok || (p.Key == n.InKey && p.OutKey)
+				}
+			}
+			if !ok {
+				n.InKey = ""
+			}
+		}
+	}
+}
+
 func (engine) Shrink(ci any, stillFails func(any) bool) any {
 	cur := ci.(*Case)
 	if r, ok := failed[caseKey(cur)]; ok && r.Sig == "hang" {
@@ -150,6 +181,9 @@ func (engine) Shrink(ci any, stillFails func(any) bool) any {
 		for _, d := range caseCands(cur) {
 			if budget--; budget < 0 {
 				break
+			}
+			if d.G != nil {
+				normKeys(d.G)
 			}
 			if (d.Fwd == nil && d.G == nil) || !stillFails(d) {
 				continue
